@@ -469,7 +469,11 @@ def annotation_text(case):
                 lines.append("%s\tsrc\tprotein\t%d\t%d\t.\t%s\t.\tID=%s.p;Parent=%s" % (
                     t["seqid"], min(c["start"] for c in hung), max(c["end"] for c in hung), t["strand"], t["id"], t["id"]))
             for n, c in enumerate(t["children"]):
-                extra = ";ID=%s.c%d" % (t["id"], n) if n % 3 == 0 else ""
+                if "id" in c:
+                    # duplicated records: no ID of their own (byte-identical lines) or one ID per copy
+                    extra = ";ID=%s" % c["id"] if c["id"] else ""
+                else:
+                    extra = ";ID=%s.c%d" % (t["id"], n) if n % 3 == 0 else ""
                 lines.append("%s\tsrc\t%s\t%d\t%d\t.\t%s\t%s\tParent=%s%s" % (
                     t["seqid"], c["type"], c["start"], c["end"], t["strand"], "0" if c["type"] == "CDS" else ".",
                     t["id"] + ".p" if c["type"] in via else t["id"], extra))
@@ -478,7 +482,7 @@ def annotation_text(case):
             for c in t["children"]:
                 lines.append("%s\tsrc\t%s\t%d\t%d\t.\t%s\t%s\t%s" % (
                     t["seqid"], c["type"], c["start"], c["end"], t["strand"], "0" if c["type"] == "CDS" else ".",
-                    gtf_attrs([[k, v] for k, v in reversed(t["attrs"])])))
+                    gtf_attrs([[k, v] for k, v in reversed(t["attrs"])]) + (' exon_id "%s";' % c["id"] if c.get("id") else "")))
     if case.get("shuffle_seed") is not None:
         random.Random(case["shuffle_seed"]).shuffle(lines)
     return "\n".join(lines) + "\n"
@@ -635,6 +639,27 @@ def one_call(ctx, case, db, ci, c):
                 ctx.mon(pre + "str block name contained in / containing the str or listed thick name")
     if exp["thick_present"]:
         ctx.mon("bed12 thickStart/thickEnd judged")
+    blocks_sel = M.select(t["children"], c["block"])
+    thick_sel = M.select(t["children"], c["thick"])
+    spans = bool(blocks_sel) and blocks_sel[0]["start"] == t["start"] and blocks_sel[-1]["end"] == t["end"]
+    for kind in sorted(M.duplicate_kinds(blocks_sel)):
+        ctx.mon("bed12 duplicated records: lines with %s compared"
+                % ("byte-identical block records" if kind == "identical" else "equal-coordinate blocks under distinct IDs"))
+        ctx.mon("bed12 duplicated records: lines compared, fmt=" + fmt)
+    if M.duplicate_kinds(thick_sel):
+        ctx.mon("bed12 duplicated records: thick range judged with a duplicated thick record")
+    if thick_sel and spans:
+        if thick_sel[0]["start"] < t["start"]:
+            ctx.mon("bed12 reach: thickStart judged for a thick feature starting before the transcript")
+        if thick_sel[-1]["end"] > t["end"]:
+            ctx.mon("bed12 reach: thickEnd judged for a thick feature ending after the transcript")
+        if thick_sel[0]["start"] < t["start"] or thick_sel[-1]["end"] > t["end"]:
+            ctx.mon("bed12 reach: lines compared, fmt=" + fmt)
+    if c["thin"] and spans:
+        thin_sel = M.select(t["children"], c["thin"])
+        if thin_sel and (thin_sel[0]["start"] < t["start"] or thin_sel[-1]["end"] > t["end"]):
+            # the statement names the thick features only: fields 7 and 8 are not judged, the other ten are
+            ctx.mon("bed12 reach: thin features reaching past the transcript (thickStart/thickEnd not judged, other fields judged)")
     if exp["single"]:
         ctx.mon("bed12 single-block exports")
     if exp["fields"][3] == ".":
@@ -650,6 +675,8 @@ def one_call(ctx, case, db, ci, c):
                 return dict(info, why="convert.to_bed12 raised %s" % type(ex).__name__, exception=repr(ex))
             why, detail = M.judge_bed12(out, exp, only=(0, 1, 2, 9, 10, 11))
             ctx.mon("to_bed12 lines compared (fields 1-3, 10-12)")
+            if M.duplicate_kinds(blocks_sel):
+                ctx.mon("bed12 duplicated records: to_bed12 lines compared")
             if why:
                 return dict(info, why="convert.to_bed12: " + why, detail=detail, got=out)
     return None
@@ -722,6 +749,19 @@ def run(ctx):
                  if rng.random() < 0.02 else None, cls="bed12 substring names")
         for lay in set(t["layout"] for t in case["transcripts"]):
             ctx.classes["bed12 substring names layout=" + lay] += 1
+    # 2c. duplicated block records; thick / thin children reaching past the transcript
+    for _ in range(ctx.budget(700, 24000)):
+        which = "dup" if rng.random() < 0.5 else "reach"
+        fmt = "gtf" if rng.random() < 0.35 else "gff3"
+        case = G.dup_case(rng, fmt) if which == "dup" else G.reach_case(rng, fmt)
+        execute(ctx, case)
+        classes, nontrivial = case_classes(case)
+        ctx.case(case, True, sample={"fmt": fmt, "calls": case["calls"][:1], "text": annotation_text(case)[:700]}
+                 if rng.random() < 0.02 else None,
+                 cls="bed12 %s fmt=%s" % ("duplicated records" if which == "dup" else "thick/thin past the transcript", fmt))
+        for t in case["transcripts"]:
+            for k in t.get("dups", []) + t.get("reach", []):
+                ctx.classes["bed12 %s: %s" % (which, k)] += 1
     # 2. bed12 (transcripts whose block selection is empty are given as Feature here)
     bed_phase(ctx, rng, ctx.budget(3000, 120000), False)
     # 3. bed12 by id for transcripts without block children: last, so that a defect there cannot push other reports
